@@ -19,8 +19,8 @@ Notation pulls id k := (repeat (SevNext id) k).
 
 (* Filter: one call pulls the rejected items in front of the item it returns, and that item -
    nothing behind it; at the end: everything left, and the end *)
-Lemma ifilter_lazy id keep : forall n a o a' ev,
-  (length a < n)%nat -> ifilter (slice_nx id) n keep a = (o, a', ev) ->
+Lemma ifilter_lazy id keep fl : cb_panics fl = false -> forall n calls a o calls' a' ev,
+  (length a < n)%nat -> ifilter (slice_nx id) n keep fl calls a = (o, (calls', a'), ev) ->
   match o with
   | Item x => exists pre, a = pre ++ x :: a' /\ forallb (fun y => negb (pred_eval keep y)) pre = true
                           /\ pred_eval keep x = true /\ ev = pulls id (length pre + 1)
@@ -29,13 +29,14 @@ Lemma ifilter_lazy id keep : forall n a o a' ev,
   | _ => False
   end.
 Proof.
-  induction n as [|n IH]; intros a o a' ev Hn Hc; [lia|]. simpl in Hc.
+  intros Hfl. induction n as [|n IH]; intros calls a o calls' a' ev Hn Hc; [lia|]. simpl in Hc.
   destruct a as [|x t]; simpl in Hc.
   - inv_ret Hc. auto.
-  - destruct (pred_eval keep x) eqn:Ek.
+  - rewrite (panics_now_false fl calls Hfl) in Hc. destruct (pred_eval keep x) eqn:Ek.
     + inv_ret Hc. exists []. simpl. auto.
-    + destruct (ifilter (slice_nx id) n keep t) as [[o2 a2] ev2] eqn:E2. simpl in Hc.
-      inv_ret Hc. specialize (IH t _ _ _ ltac:(simpl in Hn; lia) E2).
+    + destruct (ifilter (slice_nx id) n keep fl (S calls) t) as [[o2 [c2 a2]] ev2] eqn:E2.
+      simpl in Hc.
+      inv_ret Hc. specialize (IH _ t _ _ _ _ ltac:(simpl in Hn; lia) E2).
       destruct o as [y| | | |]; auto.
       * destruct IH as (pre & Ha & Hp & Hk & He). exists (x :: pre). simpl.
         rewrite Ek, Hp, Ha, He. auto.
@@ -54,17 +55,22 @@ Proof.
   - destruct a as [|y t]; simpl; intros Hc; inv_ret Hc; auto.
 Qed.
 
-(* Map, While: exactly one pull per call (While: none once it is done) *)
-Lemma imap_lazy id f a o a' ev :
-  imap (slice_nx id) f a = (o, a', ev) -> ev = pulls id 1.
-Proof. unfold imap. destruct a as [|y t]; simpl; intros Hc; inv_ret Hc; reflexivity. Qed.
+(* Map, While: exactly one pull per call (While: none once it is done) - also when the callback
+   panics *)
+Lemma imap_lazy id f fl calls a o calls' a' ev :
+  imap (slice_nx id) f fl calls a = (o, (calls', a'), ev) -> ev = pulls id 1.
+Proof.
+  unfold imap. destruct a as [|y t]; simpl; [|destruct (panics_now fl calls)];
+    intros Hc; inv_ret Hc; reflexivity.
+Qed.
 
-Lemma iwhile_lazy id f done a o done' a' ev :
-  iwhile (slice_nx id) f done a = (o, (done', a'), ev) ->
+Lemma iwhile_lazy id f fl calls done a o calls' done' a' ev :
+  iwhile (slice_nx id) f fl calls done a = (o, (calls', done', a'), ev) ->
   ev = if done then [] else pulls id 1.
 Proof.
   unfold iwhile. destruct done; [intros Hc; inv_ret Hc; reflexivity|].
   destruct a as [|y t]; simpl; [intros Hc; inv_ret Hc; reflexivity|].
+  destruct (panics_now fl calls); [intros Hc; inv_ret Hc; reflexivity|].
   destruct (pred_eval f y); intros Hc; inv_ret Hc; reflexivity.
 Qed.
 
@@ -169,14 +175,16 @@ Fixpoint kept_pos (keep : Z -> bool) (l : list Z) (k : nat) : nat :=
 Lemma kept_pos_0 keep l : kept_pos keep l 0 = O.
 Proof. destruct l; reflexivity. Qed.
 
-Lemma ifilter_iso {S1 S2} (nx1 : S1 -> ret Z S1) (nx2 : S2 -> ret Z S2) (g : S1 -> S2) keep :
+Lemma ifilter_iso {S1 S2} (nx1 : S1 -> ret Z S1) (nx2 : S2 -> ret Z S2) (g : S1 -> S2) keep fl :
   (forall a, nx2 (g a) = let '(o, a', ev) := nx1 a in (o, g a', ev)) ->
-  forall n a, ifilter nx2 n keep (g a) = let '(o, a', ev) := ifilter nx1 n keep a in (o, g a', ev).
+  forall n calls a, ifilter nx2 n keep fl calls (g a)
+                    = let '(o, (c', a'), ev) := ifilter nx1 n keep fl calls a in (o, (c', g a'), ev).
 Proof.
-  intros H. induction n as [|n IH]; intros a; simpl; [reflexivity|].
+  intros H. induction n as [|n IH]; intros calls a; simpl; [reflexivity|].
   rewrite H. destruct (nx1 a) as [[o a1] ev1]. destruct o as [x| | | |]; try reflexivity.
+  destruct (panics_now fl calls); [reflexivity|].
   destruct (pred_eval keep x); [reflexivity|]. rewrite IH.
-  destruct (ifilter nx1 n keep a1) as [[o2 a2] ev2]. reflexivity.
+  destruct (ifilter nx1 n keep fl (S calls) a1) as [[o2 [c2 a2]] ev2]. reflexivity.
 Qed.
 
 Lemma count_next_pulls id k : count_next id (pulls id k) = k.
@@ -197,41 +205,48 @@ Proof.
     rewrite Hy. simpl in IH. rewrite (IH Hp Hk). reflexivity.
 Qed.
 
-Lemma istep_filter_slice id keep a :
-  istep (IFilter keep (ISrc id (ISlice a))) =
-  let '(o, a', ev) := ifilter (slice_nx id) (S (S (S (length a)))) keep a in
-  (o, IFilter keep (ISrc id (ISlice a')), ev).
+Lemma istep_filter_slice id keep fl calls a :
+  istep (IFilter keep fl calls (ISrc id (ISlice a))) =
+  let '(o, (c', a'), ev) := ifilter (slice_nx id) (S (S (S (length a)))) keep fl calls a in
+  (o, IFilter keep fl c' (ISrc id (ISlice a')), ev).
 Proof.
-  unfold istep. change (isize (IFilter keep (ISrc id (ISlice a)))) with (S (S (length a))).
-  change (inext (S (S (S (length a)))) (IFilter keep (ISrc id (ISlice a))))
-    with (let '(o, p', ev) := ifilter (inext (S (S (length a)))) (S (S (S (length a)))) keep
-                                      (ISrc id (ISlice a)) in (o, IFilter keep p', ev)).
+  unfold istep.
+  change (isize (IFilter keep fl calls (ISrc id (ISlice a)))) with (S (S (length a))).
+  change (inext (S (S (S (length a)))) (IFilter keep fl calls (ISrc id (ISlice a))))
+    with (let '(o, (c', p'), ev) := ifilter (inext (S (S (length a)))) (S (S (S (length a)))) keep
+                                      fl calls (ISrc id (ISlice a)) in
+          (o, IFilter keep fl c' p', ev)).
   rewrite (ifilter_iso (slice_nx id) (inext (S (S (length a)))) (fun a => ISrc id (ISlice a))
-                       keep (fun a0 => inext_slice (S (length a)) id a0)).
-  destruct (ifilter (slice_nx id) (S (S (S (length a)))) keep a) as [[o a1] ev1]. reflexivity.
+                       keep fl (fun a0 => inext_slice (S (length a)) id a0)).
+  destruct (ifilter (slice_nx id) (S (S (S (length a)))) keep fl calls a) as [[o [c1 a1]] ev1].
+  reflexivity.
 Qed.
 
 (* after k Next calls that all find an item, Filter over Slice l has made exactly
    kept_pos keep l k calls of the source's Next: the index of the k-th kept item + 1 *)
 Theorem filter_pulls_exact cfg id keep fl l k :
+  cb_panics fl = false ->
   (k <= length (filter (pred_eval keep) l))%nat ->
   let run := run_iter_cfg cfg (inl (ZFilter keep fl (ZSrc id (SSlice l))))
                           (Steps (map CNext (repeat true k))) in
   count_next id (ro_log run) = kept_pos (pred_eval keep) l k /\
   results run = map (fun x => RItem (IZ x)) (firstn k (filter (pred_eval keep) l)).
 Proof.
-  intros Hk run. unfold run, run_iter_cfg, results. simpl.
-  assert (Hgen : forall k a log,
+  intros Hfl Hk run. unfold run, run_iter_cfg, results. simpl.
+  assert (Hgen : forall k calls a log,
     (k <= length (filter (pred_eval keep) a))%nat ->
-    let '(steps, log') := irun_steps (sort_ids [id]) (RZ (IFilter keep (ISrc id (ISlice a)))) log
+    let '(steps, log') := irun_steps (sort_ids [id])
+                                     (RZ (IFilter keep fl calls (ISrc id (ISlice a)))) log
                                      (map CNext (repeat true k)) in
     count_next id log' = (count_next id log + kept_pos (pred_eval keep) a k)%nat /\
     map so_res steps = map (fun x => RItem (IZ x)) (firstn k (filter (pred_eval keep) a))).
-  { clear. induction k as [|k IH]; intros a log Hk; simpl.
+  { clear - Hfl. induction k as [|k IH]; intros calls a log Hk; simpl.
     - rewrite kept_pos_0. split; [lia|reflexivity].
     - rewrite istep_filter_slice.
-      destruct (ifilter (slice_nx id) (S (S (S (length a)))) keep a) as [[o a1] ev1] eqn:E.
-      pose proof (ifilter_lazy id keep (S (S (S (length a)))) a o a1 ev1 ltac:(lia) E) as Hl.
+      destruct (ifilter (slice_nx id) (S (S (S (length a)))) keep fl calls a)
+        as [[o [c1 a1]] ev1] eqn:E.
+      pose proof (ifilter_lazy id keep fl Hfl (S (S (S (length a)))) calls a o c1 a1 ev1
+                               ltac:(lia) E) as Hl.
       destruct o as [x| | | |]; try (destruct Hl; fail).
       + destruct Hl as (pre & Ha & Hp & Hkx & Hev). simpl.
         assert (Hf : filter (pred_eval keep) a = x :: filter (pred_eval keep) a1).
@@ -242,8 +257,8 @@ Proof.
             rewrite Hy. auto. }
           rewrite Hn. reflexivity. }
         rewrite Hf in Hk. simpl in Hk.
-        specialize (IH a1 (log ++ ev1) ltac:(lia)). change (sort_ids [id]) with [id] in *.
-        destruct (irun_steps [id] (RZ (IFilter keep (ISrc id (ISlice a1)))) (log ++ ev1)
+        specialize (IH c1 a1 (log ++ ev1) ltac:(lia)). change (sort_ids [id]) with [id] in *.
+        destruct (irun_steps [id] (RZ (IFilter keep fl c1 (ISrc id (ISlice a1)))) (log ++ ev1)
                              (map CNext (repeat true k))) as [steps log'].
         destruct IH as [IH1 IH2]. split.
         * rewrite IH1, count_next_app, Hev, count_next_pulls, Ha.
@@ -255,8 +270,8 @@ Proof.
           apply andb_true_iff in Hp. destruct Hp as [Hy Hp]. apply negb_true_iff in Hy.
           rewrite Hy. auto. }
         rewrite Hn in Hk. simpl in Hk. lia. }
-  specialize (Hgen k l [] Hk). change (sort_ids [id]) with [id] in *.
-  destruct (irun_steps [id] (RZ (IFilter keep (ISrc id (ISlice l)))) []
+  specialize (Hgen k O l [] Hk). change (sort_ids [id]) with [id] in *.
+  destruct (irun_steps [id] (RZ (IFilter keep fl O (ISrc id (ISlice l)))) []
                        (map CNext (repeat true k))) as [steps log'].
   simpl. exact Hgen.
 Qed.
